@@ -161,6 +161,18 @@ Proof.
   inversion He; subst ws. destruct (imm r); exact Hd.
 Qed.
 
+Lemma last_irrel {A} (l : list A) : forall x d d', last (x :: l) d = last (x :: l) d'.
+Proof.
+  induction l as [|y r IH]; intros x d d'; [reflexivity|].
+  change (last (x :: y :: r) d) with (last (y :: r) d).
+  change (last (x :: y :: r) d') with (last (y :: r) d'). apply IH.
+Qed.
+Lemma last_cons_default {A} (l : list A) a d : last (a :: l) d = last l a.
+Proof.
+  destruct l as [|y r]; [reflexivity|].
+  change (last (a :: y :: r) d) with (last (y :: r) d). apply last_irrel.
+Qed.
+
 Section Run.
 Variable finv : Z -> Z.
 Hypothesis finv_ok : forall z z0, 0 <= z < P -> 0 <= z0 < P -> z0 <> 0 ->
@@ -246,5 +258,25 @@ Proof.
     destruct (commit m (s_writes sr)) as [m1|]; [|discriminate].
     destruct (vm_trace n m1 (s_next sr)) as [[mf' tr']|] eqn:Et; [|discriminate].
     inversion H; subst. cbn. f_equal. eapply IH; exact Et.
+Qed.
+
+(* executions compose: an (n + k)-step run is an n-step run followed by a k-step run from the
+   memory and state it reached (so every statement about runs also holds for their prefixes) *)
+Lemma trace_app n : forall k m s mf tr,
+  vm_trace (n + k) m s = Some (mf, tr) ->
+  exists m1 tr1 tr2, vm_trace n m s = Some (m1, tr1)
+    /\ vm_trace k m1 (last tr1 s) = Some (mf, tr2) /\ tr = tr1 ++ tr2.
+Proof.
+  induction n as [|n IH]; intros k m s mf tr H.
+  - exists m, [], tr. split; [reflexivity|]. split; [exact H|reflexivity].
+  - cbn [Nat.add vm_trace] in H. cbn [vm_trace].
+    destruct (vm_step finv m s) as [sr|]; [|discriminate].
+    destruct (commit m (s_writes sr)) as [m0|]; [|discriminate].
+    destruct (vm_trace (n + k) m0 (s_next sr)) as [[mf' tr']|] eqn:Et; [|discriminate].
+    inversion H; subst mf' tr. clear H.
+    destruct (IH _ _ _ _ _ Et) as (m1 & tr1 & tr2 & H1 & H2 & H3).
+    rewrite H1. exists m1, (s_next sr :: tr1), tr2.
+    split; [reflexivity|]. split; [|subst tr'; reflexivity].
+    rewrite last_cons_default. exact H2.
 Qed.
 End Run.
